@@ -227,6 +227,8 @@ func init() {
 			{Name: "parallel", Race: true, Run: codecParallel("fastq")},
 			{Name: "histories", Run: codecHistories("fastq")},
 			{Name: "readerzoo", TShards: 4, Run: zooUnit("fastq")},
+			{Name: "exactsizes", QShards: 2, TShards: 4, Run: exactSizeUnit("fastq")},
+			{Name: "namesbyseq", QShards: 2, TShards: 4, Run: c02NamesBySeq},
 			firstCallUnit(firstCodec("fastq")),
 		},
 	})
@@ -536,6 +538,39 @@ func c02Sizes(c *Ctx) {
 				})
 				idx++
 			}
+		}
+	}
+}
+
+// c02NamesBySeq: reads longer than any buffer under a name of EVERY length
+// 0..200 (thorough 0..600) — see c01NamesBySeq.
+func c02NamesBySeq(c *Ctx) {
+	seqLens := []int{33000, 40000, 70001}
+	maxName := 200
+	if c.Thorough {
+		seqLens = append(seqLens, 140000)
+		maxName = 600
+	}
+	idx := int64(0)
+	for _, sl := range seqLens {
+		for nl := 0; nl <= maxName; nl++ {
+			c.Case(idx, func(k *K) {
+				r := k.Rand()
+				rec := &fastq.Fastq{Name: randSeq(r, []byte("abcXYZ019 |._"), nl), Sequence: randSeq(r, []byte("ACGTN"), sl), Quals: randSeq(r, []byte("!#5I~"), sl)}
+				recs := []*fastq.Fastq{rec, {Name: []byte("next"), Sequence: []byte("ACGT"), Quals: []byte("IIII")}}
+				k.Input("name_length", nl)
+				k.Input("sequence_length", sl)
+				text := fastqWrite(k, recs)
+				if k.Failed() {
+					return
+				}
+				fastqDecodeCompare(k, recs, text)
+				k.Count("records_roundtripped", 2)
+				k.Count("long_records_by_name_length", 1)
+				k.Evals(1)
+				k.Nontrivial([]byte(fmt.Sprint("namesbyseq", nl, sl)))
+			})
+			idx++
 		}
 	}
 }
